@@ -27,7 +27,29 @@ ENTRIES = ["parse", "parse-text", "env-parse", "memory-store-ctor", "memory-sour
            # the same file read before under the other versions (and none) through the same and another source: no answer may depend on earlier reads
            "fs-source-get-after-reads", "fs-source-query-after-reads",
            # the documented backward-compatible layout: a plain <id>.json directly in a type directory that also holds <id>/<modified>.json directories
-           "fs-source-get-flat-legacy", "fs-source-all-versions-flat-legacy", "fs-source-query-flat-legacy"]
+           "fs-source-get-flat-legacy", "fs-source-all-versions-flat-legacy", "fs-source-query-flat-legacy",
+           # bundles whose members are of both spec versions (legal in 2.1; what v21.Bundle(v20_obj, v21_obj) or save_to_file of a mixed store writes)
+           "memory-bundle-add-mixed", "memory-load-from-file-mixed", "memory-store-ctor-bundle-mixed",
+           # object files that are bundles (FileSystemSink(bundlify=True)): the identifier under test is the WRAPPER's, the wrapped object is valid
+           "fs-source-get-bundlified", "fs-source-all-versions-bundlified", "fs-source-query-bundlified"]
+COMPANION20 = {"type": "identity", "id": "identity--7e4ba2c2-6b3e-4a0f-9a6e-0e2f5f5d0a20", "created": "2020-01-01T00:00:00.000Z", "modified": "2020-01-01T00:00:00.000Z",
+               "name": "companion", "identity_class": "individual"}
+COMPANION21 = dict(COMPANION20, id="identity--7e4ba2c2-6b3e-4a0f-9a6e-0e2f5f5d0a21", spec_version="2.1")
+
+
+def mixed_members(doc, v):
+    """The document between companions of both versions (a companion that is not valid under the named version is left out)."""
+    import copy
+    return [copy.deepcopy(COMPANION20), doc] + ([copy.deepcopy(COMPANION21)] if v != "2.0" else [])
+
+
+def wrapper_for(case):
+    """(wrapper bundle, wrapped document): the wrapped document keeps its generated, valid id; the id kind under test goes to the wrapper."""
+    doc = dict(case["doc"])
+    w = {"type": "bundle", "id": "bundle--" + (ID_KINDS[case["id_kind"]] or "3f2504e0-4f89-41d3-9a0c-0305e82c3301"), "objects": [doc]}
+    if "spec_version" not in doc:
+        w["spec_version"] = "2.0"       # what v20.Bundle / bundlify writes around 2.0 content
+    return w, doc
 VERSIONS = [None, "2.0", "2.1"]
 
 
@@ -41,7 +63,7 @@ def reference(doc, allow_custom, v):
     return core.guarded(stix2.parse, doc, allow_custom=allow_custom, version=v)
 
 
-def route(entry, doc, v, allow_custom, tmp):
+def route(entry, doc, v, allow_custom, tmp, wrapper=None):
     """Returns (obj, exc) the entry point yields for doc under version v."""
     import stix2
     from stix2 import Environment, FileSystemSink, FileSystemSource, MemorySink, MemorySource, MemoryStore
@@ -59,6 +81,14 @@ def route(entry, doc, v, allow_custom, tmp):
         return core.guarded(stix2.parse_observable, doc, allow_custom=allow_custom, version=v)
     if entry == "env-parse":
         return core.guarded(Environment().parse, doc, allow_custom=allow_custom, version=v)
+    members = [doc]
+    if entry.endswith("-mixed"):
+        entry = entry[:-len("-mixed")]
+        members = mixed_members(doc, v)
+    if entry == "memory-store-ctor-bundle":
+        b = {"type": "bundle", "id": "bundle--3f2504e0-4f89-41d3-9a0c-0305e82c3301", "objects": members}
+        s, exc = core.guarded(MemoryStore, stix_data=b, allow_custom=allow_custom, version=v)
+        return (pick(s.query()) if exc is None else None), exc
     if entry == "memory-store-ctor":
         s, exc = core.guarded(MemoryStore, stix_data=[doc], allow_custom=allow_custom, version=v)
         return (pick(s.query()) if exc is None else None), exc
@@ -74,7 +104,7 @@ def route(entry, doc, v, allow_custom, tmp):
         s = MemoryStore(allow_custom=allow_custom)
         payload = doc
         if entry == "memory-bundle-add":
-            payload = {"type": "bundle", "id": "bundle--3f2504e0-4f89-41d3-9a0c-0305e82c3301", "objects": [doc]}
+            payload = {"type": "bundle", "id": "bundle--3f2504e0-4f89-41d3-9a0c-0305e82c3301", "objects": members}
         _, exc = core.guarded(s.add, payload, version=v)
         return (pick(s.query()) if exc is None else None), exc
     if entry == "memory-sink-add":
@@ -84,7 +114,7 @@ def route(entry, doc, v, allow_custom, tmp):
     if entry == "memory-load-from-file":
         path = os.path.join(tmp, "in.json")
         with open(path, "w") as f:
-            json.dump({"type": "bundle", "id": "bundle--3f2504e0-4f89-41d3-9a0c-0305e82c3301", "objects": [doc]}, f)
+            json.dump({"type": "bundle", "id": "bundle--3f2504e0-4f89-41d3-9a0c-0305e82c3301", "objects": members}, f)
         s = MemoryStore(allow_custom=allow_custom)
         _, exc = core.guarded(s.load_from_file, path, version=v)
         return (pick(s.query()) if exc is None else None), exc
@@ -122,8 +152,10 @@ def route(entry, doc, v, allow_custom, tmp):
     else:
         os.makedirs(d, exist_ok=True)
         fn = os.path.join(d, oid + ".json")
+    if entry.endswith("-bundlified"):
+        entry = entry[:-len("-bundlified")]
     with open(fn, "w") as f:
-        json.dump(doc, f)
+        json.dump(wrapper if wrapper is not None else doc, f)
     src = FileSystemSource(fsdir, allow_custom=allow_custom)
     if entry.endswith("-after-reads"):
         for k, other in enumerate(x for x in (None, "2.0", "2.1") if x != v):
@@ -182,10 +214,19 @@ def check_case(case):
     entry = case["entry"]
     allow_custom = case["allow_custom"]
     fails = []
-    ref, rexc = reference(doc, allow_custom, v)
+    wrapper = None
+    if entry.endswith("-bundlified"):
+        # the file holds a bundle: the wrapper must pass a direct parse under v, and the object asked for is the wrapped document
+        # interpreted under v like a file that holds the document itself
+        wrapper, doc = wrapper_for(case)
+        ref, rexc = reference(wrapper, allow_custom, v)
+        if rexc is None:
+            ref, rexc = reference(doc, allow_custom, v)
+    else:
+        ref, rexc = reference(doc, allow_custom, v)
     tmp = tempfile.mkdtemp(prefix="c14-")
     try:
-        got, gexc = route(entry, doc, v, allow_custom, tmp)
+        got, gexc = route(entry, doc, v, allow_custom, tmp, wrapper)
     finally:
         shutil.rmtree(tmp, ignore_errors=True)
     desc = "%s(version=%r, allow_custom=%s) id=%s doc=%s" % (entry, v, allow_custom, case["id_kind"], core.short(doc, 300))
